@@ -368,7 +368,7 @@ func c13Evaluate(c *Ctx, bt *Batch, pc *c13Case) {
 	if pc.Idx < 1 && pc.Stream == "stmt" {
 		c.Sample(map[string]any{"importer": st.Imp, "args": strings.Join(st.Args, " "), "statement": clip(string(st.File)), "output": clip(pc.Out)})
 	}
-	wellFormed := pc.Stream == "stmt" || pc.Stream == "flags" || pc.Stream == "big"
+	wellFormed := pc.Stream == "stmt" || pc.Stream == "flags" || pc.Stream == "big" || pc.Stream == "long"
 
 	// ---- correspondence: real importer vs Lean row model + journal printer, byte for byte
 	recs, syntaxErr := c13Decode(st.Imp, st.File)
@@ -690,6 +690,10 @@ func runC13(c *Ctx) {
 	if !c.Replay || c.OnlyStr == "big" {
 		runC13Big(c, dir)
 	}
+	// long free-text fields and long physical lines
+	if !c.Replay || c.OnlyStr == "long" {
+		runC13Long(c, dir)
+	}
 	// directed search around disagreements: every row of a disagreeing statement alone
 	if len(c13Suspects) > 0 && !c.Replay {
 		directed := c13Directed(c13Suspects)
@@ -699,6 +703,94 @@ func runC13(c *Ctx) {
 	c.Notes = append(c.Notes,
 		"row models and Faithful theorems exist for all eleven importers; the text-level validity clause (printed text parses and re-prints unchanged) is decided by the monitors output_parses, output_parses_lean_parser, output_accepted, output_reprinted_unchanged on the REAL output",
 		"known by-design deviations are reported as KNOWN-FINDING lines: wise books a conversion row as two transactions, swissquote books a forex pair (two rows) as one, interactivebrokers rounds to cents; the three repaired findings (postfinance debug line, quote replaced after sorting, swissquote sale without proceeds) are ordinary violations if they return")
+}
+
+// ---------------------------------------------------------------- stream long: long fields, long physical lines
+//
+// See c13GenLong (c13gen.go). Per importer the indices run through twelve classes of length (on the field / on the physical
+// line; at 4096, 65536, 1 MiB, another power of two, +-2; just above 64 KiB; log-uniform in 1 KiB .. 1 MiB); the statement goes
+// through c13Evaluate like a stmt case: byte comparison with the Lean model, all monitors, `knut print` on opens + output.
+// The Lean model and predicates take about a second per MiB of statement, so the quick tier keeps three in four of the MiB
+// classes at 64 KiB; the thorough tier runs them all.
+func runC13Long(c *Ctx, dir string) {
+	per := c.N(12, 96)
+	t0 := time.Now()
+	type slot struct {
+		idx, i int
+		imp    string
+	}
+	var slots []slot
+	for k, imp := range c13Importers {
+		for i := 0; i < per; i++ {
+			if idx := k*1000000 + i; c.Want("long", idx) {
+				slots = append(slots, slot{idx, i, imp})
+			}
+		}
+	}
+	if len(slots) == 0 {
+		return
+	}
+	total, maxLine, maxStmt := 0, 0, 0
+	hugeOff := c.Rng("long-huge", 0).Intn(4)
+	var inexact []string
+	build := func(sl slot) *c13Case {
+		// quick tier: the MiB classes at full size for one importer in four, which ones depends on the seed
+		huge := c.Thorough() || (sl.idx/1000000+sl.i/4+hugeOff)%4 == 0
+		st, lc := c13GenLong(func() *RNG { return c.Rng("long", sl.idx) }, sl.imp, sl.i%12, huge)
+		pc := &c13Case{Stream: "long", Idx: sl.idx, St: st, Timeout: 120 * time.Second}
+		if len(st.File) <= 100000 {
+			pc.Compact = pc.input()
+		} else {
+			pc.Compact = map[string]any{"importer": st.Imp, "args": strings.Join(st.Args, " "), "arg_list": st.Args, "flag_list": st.Flags,
+				"statement_bytes": len(st.File), "statement_sha256": fmt.Sprintf("%x", sha256.Sum256(st.File)), "statement_head": clip(string(st.File)),
+				"note": "the statement is a function of (seed, stream long, index): bin/check --replay regenerates it"}
+		}
+		pc.Compact["rows"] = st.Rows
+		pc.Compact["long"] = *lc
+		kind := "-"
+		for j, f := range lc.Fields {
+			if j == 0 || f.Len > lc.Want/2 {
+				kind = f.Kind
+			}
+		}
+		edge := "free"
+		if lc.Edge > 0 {
+			edge = fmt.Sprintf("%d%+d", lc.Edge, lc.Want-lc.Edge)
+		}
+		c.Class(fmt.Sprintf("long/%s/%s/%s/%s/%s/%s", st.Imp, lc.Target, c13SizeClass(lc.Want), edge, kind, lc.Where))
+		c.Tag("long:" + lc.Target + ":" + c13SizeClass(lc.MaxLine))
+		if lc.Target == "line" && !lc.Exact {
+			c.Tag("long:line-length-not-exact")
+			if len(inexact) < 8 {
+				inexact = append(inexact, fmt.Sprintf("%d (%s, %s): longest physical line %d bytes for %d wanted", sl.idx, st.Imp, kind, lc.MaxLine, lc.Want))
+			}
+		}
+		if len(lc.Fields) == 0 {
+			c.Tag("long:no-free-text-in-statement")
+		}
+		total += len(st.File)
+		maxLine = max(maxLine, lc.MaxLine)
+		maxStmt = max(maxStmt, len(st.File))
+		if sl.idx == 0 {
+			c.Sample(map[string]any{"stream": "long", "importer": st.Imp, "rows": st.Rows, "statement_bytes": len(st.File), "long": *lc})
+		}
+		return pc
+	}
+	// a few at a time: each case holds its statement, the output and the texts sent to the model
+	const chunk = 48
+	for lo := 0; lo < len(slots); lo += chunk {
+		var cases []*c13Case
+		for _, sl := range slots[lo:min(lo+chunk, len(slots))] {
+			cases = append(cases, build(sl))
+		}
+		c13RunCases(c, dir, cases)
+	}
+	c.Extra["long_cases"] = len(slots)
+	c.Extra["long_statement_bytes"] = total
+	c.Extra["long_largest_statement_bytes"] = maxStmt
+	c.Extra["long_longest_physical_line"] = maxLine
+	c.Extra["long_line_length_not_exact"] = inexact
+	c.Extra["long_wall_s"] = fmt.Sprintf("%.1f", time.Since(t0).Seconds())
 }
 
 // ---------------------------------------------------------------- stream big: long statements, paced consumers of stdout
